@@ -30,6 +30,7 @@ Proof. destruct m; cbn [body_from]; congruence. Qed.
 
 Section Loop.
 Variable mx : Z.
+Variable kp : Z.
 
 Lemma G_upd_same x h w k k' :
   G mx x h -> get_worker x w = Some k -> k_st k' = k_st k -> (k_task k = None -> k_task k' = None) ->
@@ -45,20 +46,26 @@ Proof.
   - exists v, kv. rewrite nth_error_set_nth_other by exact Hne. auto.
 Qed.
 
-Lemma J_set_req tnt x d h t ts : J mx tnt x d h t -> J mx tnt (set_req x ts (pw_cn x)) d h t.
+Lemma J_set_req tnt x d h t ts : J mx kp tnt x d h t -> J mx kp tnt (set_req x ts (pw_cn x)) d h t.
 Proof.
   intros [HQ HL HP HS HT HR HW]. constructor; autorewrite with pw; try assumption.
   destruct HP as [P1 P2 P3 P4 P5 P6 P7 P8 P9 P10 P11 P12]. constructor; autorewrite with pw; assumption.
 Qed.
 
+(** the worker found nothing to do and its keep-alive has not expired: a plain yield *)
+Definition idle_yield (x' : pw) (w : nat) : Prop :=
+  exists k, get_worker x' w = Some k /\ live k = true /\ k_dead k = false /\ k_tpool k = 0%nat /\ pw_ts x' = [] /\
+    k_task k = None /\ k_st k = Running /\ all_items (pw_tq x') = [].
+
 (** what the worker loop leaves for [k_resume] *)
 Definition wl_post (x' : pw) (w : nat) (out : wout) : Prop :=
   match out with
   | WYield =>
-      exists k i rest, get_worker x' w = Some k /\ live k = true /\ k_dead k = false /\ k_tpool k = 0%nat /\
+      (exists k i rest, get_worker x' w = Some k /\ live k = true /\ k_dead k = false /\ k_tpool k = 0%nat /\
         (length (pw_ts x') <= 1)%nat /\ k_task k = Some (i, rest) /\
         ((k_st k = Running /\ body_from MRun rest = true) \/
-         (exists y n ts, k_st k = Syscall y n (SSuspend ts) /\ body_from (MWoken n) rest = true))
+         (exists y n ts, k_st k = Syscall y n (SSuspend ts) /\ body_from (MWoken n) rest = true))) \/
+      idle_yield x' w
   | WReturn =>
       exists k, get_worker x' w = Some k /\ live k = true /\ k_st k = Running /\ k_task k = None /\ k_dead k = false /\
         k_tpool k = 0%nat /\ all_items (pw_tq x') = [] /\ pw_ts x' = []
@@ -73,49 +80,65 @@ Proof. intros. exists k, m. auto 10. Qed.
 
 Definition wl_cost (out : wout) : Z := match out with WYield => 3 | _ => 0 end.
 
+(** the idle part of the potential: naps left before the last keep-alive expires, idle yields left
+    before the next nap *)
+Definition ipot (x : pw) : Z := mx * phix kp x + pfx mx x.
+Definition idle_dec (x x' : pw) : Prop := ipot x' + 1 <= ipot x.
+
+(** how the measures move over a call of the worker loop, provided no nap hit the end of time:
+    either work was done, or the call was a plain idle yield (possibly after one nap) *)
+Definition WM (w : nat) (x x' : pw) (out : wout) (f : nat) : Prop :=
+  low kp x' ->
+  (rho x' + wl_cost out <= rho x \/
+   (idle_yield x' w /\ out = WYield /\ 0 < kp /\ rho x' <= rho x /\ (rho x' = rho x -> idle_dec x x'))) /\
+  (forall k, get_worker x w = Some k -> (mu2 kp x k <= f)%nat -> out <> WFuel).
+
 Definition WL (f : nat) : Prop := forall tnt x d w acc t,
-  J mx tnt x d (Some w) t -> quiet_off t -> G mx x (Some w) -> hole_ok x w -> ~ In w (pw_cancel_cos x) -> pw_ts x = [] ->
+  J mx kp tnt x d (Some w) t -> quiet_off t -> G mx x (Some w) -> hole_ok x w -> ~ In w (pw_cancel_cos x) -> pw_ts x = [] ->
   exists x' evs out, wloop f x w acc = (x', acc ++ evs, out) /\
-    J mx tnt x' d (Some w) (fold_left pev evs t) /\ G mx x' (Some w) /\
+    J mx kp tnt x' d (Some w) (fold_left pev evs t) /\ G mx x' (Some w) /\
     pw_cancel_cos x' = pw_cancel_cos x /\ pw_tbody x' = pw_tbody x /\ pw_clock x <= pw_clock x' /\ wl_post x' w out /\
-    rho x' + wl_cost out <= rho x /\
-    (forall k, get_worker x w = Some k -> (mu x k <= f)%nat -> out <> WFuel).
+    WM w x x' out f.
+
+Lemma rem_ext c k k' : k_create k' = k_create k -> rem kp c k' = rem kp c k.
+Proof. unfold rem. intros ->. reflexivity. Qed.
 
 Lemma quiet_off_fold t e : quiet_off t -> quiet_off (fold_left pev e t).
 Proof. unfold quiet_off. rewrite po_pools_fold_pev. auto. Qed.
 
-Lemma wl_chain f tnt x x1 d w acc e t :
-  WL f -> J mx tnt x1 d (Some w) (fold_left pev e t) -> quiet_off t -> G mx x1 (Some w) -> hole_ok x1 w ->
+Lemma wl_chain f tnt x x1 d w acc e t k k1 :
+  WL f -> J mx kp tnt x1 d (Some w) (fold_left pev e t) -> quiet_off t -> G mx x1 (Some w) -> hole_ok x1 w ->
   pw_cancel_cos x1 = pw_cancel_cos x -> ~ In w (pw_cancel_cos x) -> pw_ts x1 = [] -> pw_tbody x1 = pw_tbody x ->
-  pw_clock x <= pw_clock x1 -> rho x1 <= rho x ->
-  (forall k, get_worker x w = Some k -> (mu x k <= S f)%nat -> exists k1, get_worker x1 w = Some k1 /\ (mu x1 k1 <= f)%nat) ->
+  pw_clock x <= pw_clock x1 -> rho x1 < rho x ->
+  get_worker x w = Some k -> get_worker x1 w = Some k1 -> k_create k1 = k_create k -> (mu x1 k1 < mu x k)%nat ->
   exists x' evs out, wloop f x1 w (acc ++ e) = (x', acc ++ evs, out) /\
-    J mx tnt x' d (Some w) (fold_left pev evs t) /\ G mx x' (Some w) /\
+    J mx kp tnt x' d (Some w) (fold_left pev evs t) /\ G mx x' (Some w) /\
     pw_cancel_cos x' = pw_cancel_cos x /\ pw_tbody x' = pw_tbody x /\ pw_clock x <= pw_clock x' /\ wl_post x' w out /\
-    rho x' + wl_cost out <= rho x /\
-    (forall k, get_worker x w = Some k -> (mu x k <= S f)%nat -> out <> WFuel).
+    WM w x x' out (S f).
 Proof.
-  intros HWL HJ Hq HG Hh Ecc Hncc Hts Etb Hclk Hrho Hmu.
+  intros HWL HJ Hq HG Hh Ecc Hncc Hts Etb Hclk Hrho Hk Hk1 Ecr Hmu.
   destruct (HWL tnt x1 d w (acc ++ e) (fold_left pev e t) HJ (quiet_off_fold _ _ Hq) HG Hh ltac:(rewrite Ecc; exact Hncc) Hts)
-    as (x' & evs & out & Ew & HJ' & HG' & Ecc' & Etb' & Hclk' & Hpost & Hr' & Hf').
+    as (x' & evs & out & Ew & HJ' & HG' & Ecc' & Etb' & Hclk' & Hpost & HM).
   exists x', (e ++ evs), out. rewrite app_assoc, fold_pev_app. split; [exact Ew|].
   split; [exact HJ'|]. split; [exact HG'|]. split; [congruence|]. split; [congruence|]. split; [lia|]. split; [exact Hpost|].
-  split; [lia|]. intros k Hk Hm. destruct (Hmu k Hk Hm) as (k1 & Hk1 & Hm1). apply (Hf' k1 Hk1 Hm1).
+  intro Hlow. destruct (HM Hlow) as [HD Hf']. split.
+  - destruct HD as [HA|(Hi & Ho & Hkp & Hr & _)]; [left; lia|]. right. split; [exact Hi|]. split; [exact Ho|]. split; [exact Hkp|]. split; [lia|]. intro E. exfalso. lia.
+  - intros k0 Hk0 Hm. rewrite Hk in Hk0. injection Hk0 as <-. apply (Hf' k1 Hk1). unfold mu2 in *.
+    pose proof (rem_mono kp _ _ k Hclk) as Hr. rewrite (rem_ext _ _ _ Ecr). pose proof (rem_nonneg kp (pw_clock x1) k). lia.
 Qed.
 
-Lemma wl_chain0 f tnt x x1 d w acc t :
-  WL f -> J mx tnt x1 d (Some w) t -> quiet_off t -> G mx x1 (Some w) -> hole_ok x1 w ->
+Lemma wl_chain0 f tnt x x1 d w acc t k k1 :
+  WL f -> J mx kp tnt x1 d (Some w) t -> quiet_off t -> G mx x1 (Some w) -> hole_ok x1 w ->
   pw_cancel_cos x1 = pw_cancel_cos x -> ~ In w (pw_cancel_cos x) -> pw_ts x1 = [] -> pw_tbody x1 = pw_tbody x ->
-  pw_clock x <= pw_clock x1 -> rho x1 <= rho x ->
-  (forall k, get_worker x w = Some k -> (mu x k <= S f)%nat -> exists k1, get_worker x1 w = Some k1 /\ (mu x1 k1 <= f)%nat) ->
+  pw_clock x <= pw_clock x1 -> rho x1 < rho x ->
+  get_worker x w = Some k -> get_worker x1 w = Some k1 -> k_create k1 = k_create k -> (mu x1 k1 < mu x k)%nat ->
   exists x' evs out, wloop f x1 w acc = (x', acc ++ evs, out) /\
-    J mx tnt x' d (Some w) (fold_left pev evs t) /\ G mx x' (Some w) /\
+    J mx kp tnt x' d (Some w) (fold_left pev evs t) /\ G mx x' (Some w) /\
     pw_cancel_cos x' = pw_cancel_cos x /\ pw_tbody x' = pw_tbody x /\ pw_clock x <= pw_clock x' /\ wl_post x' w out /\
-    rho x' + wl_cost out <= rho x /\
-    (forall k, get_worker x w = Some k -> (mu x k <= S f)%nat -> out <> WFuel).
+    WM w x x' out (S f).
 Proof.
-  intros HWL HJ Hq HG Hh Ecc Hncc Hts Etb Hclk Hrho Hmu.
-  destruct (wl_chain f tnt x x1 d w acc [] t HWL HJ Hq HG Hh Ecc Hncc Hts Etb Hclk Hrho Hmu) as (x' & evs & out & Ew & H).
+  intros HWL HJ Hq HG Hh Ecc Hncc Hts Etb Hclk Hrho Hk Hk1 Ecr Hmu.
+  destruct (wl_chain f tnt x x1 d w acc [] t k k1 HWL HJ Hq HG Hh Ecc Hncc Hts Etb Hclk Hrho Hk Hk1 Ecr Hmu) as (x' & evs & out & Ew & H).
   rewrite app_nil_r in Ew. exists x', evs, out. split; [exact Ew | exact H].
 Qed.
 
@@ -128,7 +151,7 @@ Lemma WL_0 : WL 0.
 Proof.
   intros tnt x d w acc t HJ Hq HG Hh Hncc Hts. exists x, [], WFuel. cbn [wloop fold_left wl_post]. rewrite app_nil_r.
   split; [reflexivity|]. split; [exact HJ|]. split; [exact HG|]. split; [reflexivity|]. split; [reflexivity|]. split; [lia|]. split; [exact I|].
-  split; [cbn [wl_cost]; lia|]. intros k Hk Hm. unfold mu in Hm. lia.
+  intros _. split; [left; cbn [wl_cost]; lia|]. intros k Hk Hm. unfold mu2, mu in Hm. lia.
 Qed.
 
 (** the finishing branches *)
@@ -136,30 +159,29 @@ Lemma mu_same_q x x' k k' : pw_tq x' = pw_tq x -> pw_tbody x' = pw_tbody x -> ta
 Proof. unfold mu. intros -> -> ->. reflexivity. Qed.
 
 Lemma wl_finish f tnt x d w acc t k i rest r e :
-  WL f -> J mx tnt x d (Some w) t -> quiet_off t -> get_worker x w = Some k -> live k = true -> k_dead k = false ->
+  WL f -> J mx kp tnt x d (Some w) t -> quiet_off t -> get_worker x w = Some k -> live k = true -> k_dead k = false ->
   k_tpool k = 0%nat -> imode (k_st k) = Some MRun -> k_task k = Some (i, rest) ->
   ~ In w (pw_cancel_cos x) -> pw_ts x = [] ->
   pev t e = fin_trk t i r -> r = body_outcome rest ->
   exists x' evs out,
     fin_cont f w (acc ++ [e]) 0 (finish_task (upd_worker x w (with_task k None)) 0 i r) = (x', acc ++ evs, out) /\
-    J mx tnt x' d (Some w) (fold_left pev evs t) /\ G mx x' (Some w) /\
+    J mx kp tnt x' d (Some w) (fold_left pev evs t) /\ G mx x' (Some w) /\
     pw_cancel_cos x' = pw_cancel_cos x /\ pw_tbody x' = pw_tbody x /\ pw_clock x <= pw_clock x' /\ wl_post x' w out /\
-    rho x' + wl_cost out <= rho x /\
-    (forall k0, get_worker x w = Some k0 -> (mu x k0 <= S f)%nat -> out <> WFuel).
+    WM w x x' out (S f).
 Proof.
   intros HWL HJ Hq Hk Hl Hdead Htp Him Htask Hncc Hts Hev Hrout.
-  destruct (J_finish mx tnt x d w t k i rest r HJ Hq Hk Hl Htask Hrout) as (xf & Ef & HJ' & Hm & Hw' & HG').
-  pose proof (finish_rho x w k i r xf (jp_pools _ _ _ (j_p _ _ _ _ _ _ _ HJ)) Hk Hl Ef) as Hrho.
+  destruct (J_finish mx kp tnt x d w t k i rest r HJ Hq Hk Hl Htask Hrout) as (xf & Ef & HJ' & Hm & Hw' & HG').
+  pose proof (finish_rho x w k i r xf (jp_pools _ _ _ _ (j_p _ _ _ _ _ _ _ _ HJ)) Hk Hl Ef) as Hrho.
   rewrite Ef. cbn [fin_cont]. cbv zeta in HJ', Hm, Hw', HG'. set (xg := upd_pool xf 0 (p_with_popfail 0)) in *.
   destruct Hm as [M1 M2 M3 M4 M5 M6].
-  eapply (wl_chain f tnt x xg d w acc [e] t); try eassumption.
+  eapply (wl_chain f tnt x xg d w acc [e] t k (with_task k None)); try eassumption.
   - cbn [fold_left]. rewrite Hev. exact HJ'.
   - eapply hole_ok_intro; [exact Hw' | exact Hl | exact Hdead | exact Htp | exact Him | reflexivity].
   - congruence.
   - lia.
-  - lia.
-  - intros k0 Hk0 Hm0. rewrite Hk in Hk0. injection Hk0 as <-. exists (with_task k None). split; [exact Hw'|].
-    unfold mu in *. rewrite M5, M6. unfold tasklen in *. cbn [with_task k_task]. rewrite Htask in Hm0. lia.
+  - unfold tasklen in Hrho. rewrite Htask in Hrho. lia.
+  - reflexivity.
+  - unfold mu. rewrite M5, M6. unfold tasklen. cbn [with_task k_task]. rewrite Htask. lia.
 Qed.
 
 Lemma tr_syscall_imode s m y name st :
@@ -177,8 +199,8 @@ Lemma WL_S f : WL f -> WL (S f).
 Proof.
   intros HWL tnt x d w acc t HJ Hq HG Hh Hncc Hts.
   destruct Hh as (k & m & Hk & Hl & Hdead & Htp & Him & Hbody).
-  pose proof (jp_cur _ _ _ (j_p _ _ _ _ _ _ _ HJ)) as Hcur.
-  pose proof (jp_pools _ _ _ (j_p _ _ _ _ _ _ _ HJ)) as Hpools.
+  pose proof (jp_cur _ _ _ _ (j_p _ _ _ _ _ _ _ _ HJ)) as Hcur.
+  pose proof (jp_pools _ _ _ _ (j_p _ _ _ _ _ _ _ _ HJ)) as Hpools.
   rewrite (wloop_S f x w acc k Hk). cbv zeta. rewrite Hcur, ?Htp.
   destruct (k_task k) as [[i body]|] eqn:Htask.
   - destruct body as [|ins rest].
@@ -186,10 +208,10 @@ Proof.
       apply body_from_nil in Hbody. subst m.
       eapply (wl_finish f tnt x d w acc t k i [] (TOk 0) _ HWL HJ Hq Hk Hl Hdead Htp Him Htask Hncc Hts); reflexivity.
     + set (k0 := with_task k (Some (i, rest))). set (x0 := upd_worker x w k0).
-      assert (body_outcome (ins :: rest) = body_outcome rest -> J mx tnt x0 d (Some w) t) as HJ0'.
-      { intro Hout. apply (J_hole_upd mx tnt x d w t k k0 HJ Hk); [reflexivity | unfold tid; rewrite Htask; reflexivity|].
+      assert (body_outcome (ins :: rest) = body_outcome rest -> J mx kp tnt x0 d (Some w) t) as HJ0'.
+      { intro Hout. apply (J_hole_upd mx kp tnt x d w t k k0 HJ Hk); [reflexivity | reflexivity | unfold tid; rewrite Htask; reflexivity|].
         intros i' rest' E. cbn [k0 with_task k_task] in E. injection E as <- <-.
-        destruct (jt_suf _ _ _ _ _ _ _ _ (j_t _ _ _ _ _ _ _ HJ) _ _ _ _ Hk Htask) as [S1 S2]. cbn [length] in S2.
+        destruct (jt_suf _ _ _ _ _ _ _ _ (j_t _ _ _ _ _ _ _ _ HJ) _ _ _ _ Hk Htask) as [S1 S2]. cbn [length] in S2.
         split; [rewrite <- Hout; exact S1 | lia]. }
       assert (G mx x0 (Some w)) as HG0.
       { apply (G_upd_same x (Some w) w k k0 HG Hk); [reflexivity|]. congruence. }
@@ -201,9 +223,8 @@ Proof.
       assert (rho x0 + 3 = rho x) as Hrho0.
       { pose proof (rho_upd_worker x w k k0 Hk) as H1. rewrite (wwork_live k Hl), (wwork_live k0 Hl0), Hl, Hl0 in H1.
         unfold tasklen in H1. rewrite Htask in H1. cbn [k0 with_task k_task length] in H1. unfold x0. lia. }
-      assert (forall kk, get_worker x w = Some kk -> (mu x kk <= S f)%nat -> (mu x0 k0 <= f)%nat) as Hmu0.
-      { intros kk Hkk Hm. rewrite Hk in Hkk. injection Hkk as <-. unfold mu in *. unfold tasklen in *. rewrite Htask in Hm.
-        cbn [k0 with_task k_task length] in *. change (pw_tq x0) with (pw_tq x). change (pw_tbody x0) with (pw_tbody x). lia. }
+      assert ((mu x0 k0 < mu x k)%nat) as Hmu0.
+      { unfold mu, tasklen. rewrite Htask. cbn [k0 with_task k_task length]. change (pw_tq x0) with (pw_tq x). change (pw_tbody x0) with (pw_tbody x). lia. }
       assert (forall m', imode (k_st k0) = Some m' -> body_from m' rest = true -> hole_ok x0 w) as Hh0.
       { intros m' H1 H2. eapply hole_ok_intro; [exact Hk0 | exact Hl0 | exact Hdead | exact Htp | exact H1 | exact H2]. }
       assert (forall m', body_from (match m with MRun => MRun | MSusp n => MWoken n | _ => m' end) rest = true ->
@@ -218,26 +239,26 @@ Proof.
         pose proof (HJ0' eq_refl) as HJ0.
         exists x0, [EB i (BYield y RNone)], WYield. split; [reflexivity|].
         split; [exact HJ0|]. split; [exact HG0|]. split; [exact Ecc0|]. split; [exact Etb0|]. split; [apply Z.le_refl|]. split.
-        { exists k0, i, rest. split; [exact Hk0|]. split; [exact Hl0|]. split; [exact Hdead|]. split; [exact Htp|].
+        { left. exists k0, i, rest. split; [exact Hk0|]. split; [exact Hl0|]. split; [exact Hdead|]. split; [exact Htp|].
           split; [rewrite Hts0; cbn; lia|]. split; [reflexivity|].
           apply (Hyield MRun); destruct m; try discriminate; auto. }
-        split; [cbn [wl_cost]; lia | discriminate].
+        intros _. split; [left; cbn [wl_cost]; lia | discriminate].
       * (* IDelay *)
         pose proof (HJ0' eq_refl) as HJ0.
         eexists _, [EB i (BYield y (RDelay dd))], WYield. split; [reflexivity|].
         split; [apply J_set_req, HJ0|]. split; [exact HG0|]. split; [exact Ecc0|]. split; [exact Etb0|]. split; [apply Z.le_refl|]. split.
-        { exists k0, i, rest. split; [exact Hk0|]. split; [exact Hl0|]. split; [exact Hdead|]. split; [exact Htp|].
+        { left. exists k0, i, rest. split; [exact Hk0|]. split; [exact Hl0|]. split; [exact Hdead|]. split; [exact Htp|].
           split; [autorewrite with pw; rewrite Hts0; cbn; lia|]. split; [reflexivity|].
           apply (Hyield MRun); destruct m; try discriminate; auto. }
-        split; [cbn [wl_cost]; change (rho (set_req x0 _ _)) with (rho x0); lia | discriminate].
+        intros _. split; [left; cbn [wl_cost]; change (rho (set_req x0 _ _)) with (rho x0); lia | discriminate].
       * (* IUntil *)
         pose proof (HJ0' eq_refl) as HJ0.
         eexists _, [EB i (BYield y (RUntil ts))], WYield. split; [reflexivity|].
         split; [apply J_set_req, HJ0|]. split; [exact HG0|]. split; [exact Ecc0|]. split; [exact Etb0|]. split; [apply Z.le_refl|]. split.
-        { exists k0, i, rest. split; [exact Hk0|]. split; [exact Hl0|]. split; [exact Hdead|]. split; [exact Htp|].
+        { left. exists k0, i, rest. split; [exact Hk0|]. split; [exact Hl0|]. split; [exact Hdead|]. split; [exact Htp|].
           split; [autorewrite with pw; rewrite Hts0; cbn; lia|]. split; [reflexivity|].
           apply (Hyield MRun); destruct m; try discriminate; auto. }
-        split; [cbn [wl_cost]; change (rho (set_req x0 _ _)) with (rho x0); lia | discriminate].
+        intros _. split; [left; cbn [wl_cost]; change (rho (set_req x0 _ _)) with (rho x0); lia | discriminate].
       * discriminate.
       * (* ISyscall *)
         pose proof (HJ0' eq_refl) as HJ0.
@@ -245,59 +266,53 @@ Proof.
         rewrite (tr_syscall_imode _ _ y name st Him Hname).
         assert (exists m', imode (Syscall y name st) = Some m' /\ body_from m' rest = true) as (m' & Him' & Hbody').
         { destruct st; try discriminate; cbn [imode]; eauto. }
-        destruct (J_k_change mx tnt x0 d w t k0 (Syscall y name st) HJ0 Hq Hk0 Hl0 ltac:(discriminate))
+        destruct (J_k_change mx kp tnt x0 d w t k0 (Syscall y name st) HJ0 Hq Hk0 Hl0 ltac:(discriminate))
           as (x1 & Ekc & HJ1 & Hm1 & Hk1 & HG1a & HG1b & HG1c).
         destruct (k_change_rho x0 w k0 (Syscall y name st) x1 _ Hpools Hcur Hk0 Hl0 Ekc) as [Hr1 _]. cbn [terminal creator_grows] in Hr1.
         rewrite Ekc. destruct Hm1 as [M1 M2 M3 M4 M5 M6].
         replace (acc ++ [EL 0 w (CbChanged (Syscall y name st)) (k_st k0)] ++ [EB i (BRes true)])
           with (acc ++ [EL 0 w (CbChanged (Syscall y name st)) (k_st k0); EB i (BRes true)]) by reflexivity.
-        eapply (wl_chain f tnt x x1 d w acc _ t HWL); [exact HJ1 | exact Hq | | | congruence | exact Hncc | congruence | congruence | rewrite M4; apply Z.le_refl | lia |].
+        eapply (wl_chain f tnt x x1 d w acc _ t k (with_st k0 (Syscall y name st)) HWL); [exact HJ1 | exact Hq | | | congruence | exact Hncc | congruence | congruence | rewrite M4; apply Z.le_refl | lia | exact Hk | exact Hk1 | reflexivity |].
         -- apply G_None_any, HG1a. reflexivity.
         -- eapply hole_ok_intro; [exact Hk1 | reflexivity | exact Hdead | exact Htp | exact Him' | exact Hbody'].
-        -- intros kk Hkk Hm. exists (with_st k0 (Syscall y name st)). split; [exact Hk1|].
-           rewrite (mu_same_q x0 x1 k0 (with_st k0 (Syscall y name st)) M5 M6 eq_refl). eapply Hmu0; eassumption.
+        -- rewrite (mu_same_q x0 x1 k0 (with_st k0 (Syscall y name st)) M5 M6 eq_refl). exact Hmu0.
       * (* IRunning *)
         pose proof (HJ0' eq_refl) as HJ0.
         destruct m as [|n|n|n]; try discriminate.
         -- pose proof (imode_MRun _ Him) as Est. rewrite Est. cbn [tr_running].
-           eapply (wl_chain f tnt x x0 d w acc [EB i (BRes true)] t HWL);
-             [exact HJ0 | exact Hq | exact HG0 | | exact Ecc0 | exact Hncc | exact Hts0 | exact Etb0 | apply Z.le_refl | lia |].
+           eapply (wl_chain f tnt x x0 d w acc [EB i (BRes true)] t k k0 HWL);
+             [exact HJ0 | exact Hq | exact HG0 | | exact Ecc0 | exact Hncc | exact Hts0 | exact Etb0 | apply Z.le_refl | lia | exact Hk | exact Hk0 | reflexivity | exact Hmu0].
            ++ apply (Hh0 MRun); [exact Him | exact Hbody].
-           ++ intros kk Hkk Hm. exists k0. split; [exact Hk0 | eapply Hmu0; eassumption].
         -- destruct (imode_MExec _ _ Him) as [y0 Est]. rewrite Est. cbn [tr_running].
-           destruct (J_k_change mx tnt x0 d w t k0 Running HJ0 Hq Hk0 Hl0 ltac:(discriminate))
+           destruct (J_k_change mx kp tnt x0 d w t k0 Running HJ0 Hq Hk0 Hl0 ltac:(discriminate))
              as (x1 & Ekc & HJ1 & Hm1 & Hk1 & HG1a & HG1b & HG1c).
            destruct (k_change_rho x0 w k0 Running x1 _ Hpools Hcur Hk0 Hl0 Ekc) as [Hr1 _]. cbn [terminal creator_grows] in Hr1.
            rewrite Ekc. destruct Hm1 as [M1 M2 M3 M4 M5 M6].
            replace (acc ++ [EL 0 w (CbChanged Running) (k_st k0)] ++ [EB i (BRes true)])
              with (acc ++ [EL 0 w (CbChanged Running) (k_st k0); EB i (BRes true)]) by reflexivity.
-           eapply (wl_chain f tnt x x1 d w acc _ t HWL); [exact HJ1 | exact Hq | | | congruence | exact Hncc | congruence | congruence | rewrite M4; apply Z.le_refl | lia |].
+           eapply (wl_chain f tnt x x1 d w acc _ t k (with_st k0 Running) HWL); [exact HJ1 | exact Hq | | | congruence | exact Hncc | congruence | congruence | rewrite M4; apply Z.le_refl | lia | exact Hk | exact Hk1 | reflexivity |].
            ++ apply HG1b; auto.
            ++ eapply hole_ok_intro; [exact Hk1 | reflexivity | exact Hdead | exact Htp | reflexivity | exact Hbody].
-           ++ intros kk Hkk Hm. exists (with_st k0 Running). split; [exact Hk1|].
-              rewrite (mu_same_q x0 x1 k0 (with_st k0 Running) M5 M6 eq_refl). eapply Hmu0; eassumption.
+           ++ rewrite (mu_same_q x0 x1 k0 (with_st k0 Running) M5 M6 eq_refl). exact Hmu0.
         -- destruct (imode_MWoken _ _ Him) as [y0 Est]. rewrite Est. cbn [tr_running].
-           eapply (wl_chain f tnt x x0 d w acc [EB i (BRes true)] t HWL);
-             [exact HJ0 | exact Hq | exact HG0 | | exact Ecc0 | exact Hncc | exact Hts0 | exact Etb0 | apply Z.le_refl | lia |].
+           eapply (wl_chain f tnt x x0 d w acc [EB i (BRes true)] t k k0 HWL);
+             [exact HJ0 | exact Hq | exact HG0 | | exact Ecc0 | exact Hncc | exact Hts0 | exact Etb0 | apply Z.le_refl | lia | exact Hk | exact Hk0 | reflexivity | exact Hmu0].
            ++ apply (Hh0 (MWoken n)); [exact Him | exact Hbody].
-           ++ intros kk Hkk Hm. exists k0. split; [exact Hk0 | eapply Hmu0; eassumption].
       * (* ITick *)
         pose proof (HJ0' eq_refl) as HJ0.
         apply andb_true_iff in Hbody as [Hd Hbody].
-        eapply (wl_chain f tnt x _ d w acc [EB i (BTick dd)] t HWL);
-          [ | exact Hq | | | exact Ecc0 | exact Hncc | exact Hts0 | exact Etb0 | | | ].
+        eapply (wl_chain f tnt x _ d w acc [EB i (BTick dd)] t k k0 HWL);
+          [ | exact Hq | | | exact Ecc0 | exact Hncc | exact Hts0 | exact Etb0 | | | exact Hk | exact Hk0 | reflexivity | exact Hmu0].
         -- cbn [fold_left]. apply J_tick; [exact HJ0 | lia].
         -- eapply G_frame; [| | | exact HG0]; reflexivity.
         -- eapply hole_ok_intro; [exact Hk0 | exact Hl0 | exact Hdead | exact Htp | exact Him | exact Hbody].
-        -- autorewrite with pw. apply (sat_add64_mono (pw_clock x) dd); [apply (jp_clock _ _ _ (j_p _ _ _ _ _ _ _ HJ)) | lia].
+        -- autorewrite with pw. apply (sat_add64_mono (pw_clock x) dd); [apply (jp_clock _ _ _ _ (j_p _ _ _ _ _ _ _ _ HJ)) | lia].
         -- change (rho (set_clockp x0 _)) with (rho x0). lia.
-        -- intros kk Hkk Hm. exists k0. split; [exact Hk0 | eapply Hmu0; eassumption].
       * (* ILog *)
         pose proof (HJ0' eq_refl) as HJ0.
-        eapply (wl_chain f tnt x x0 d w acc [EB i (BLog n)] t HWL);
-          [exact HJ0 | exact Hq | exact HG0 | | exact Ecc0 | exact Hncc | exact Hts0 | exact Etb0 | apply Z.le_refl | lia |].
+        eapply (wl_chain f tnt x x0 d w acc [EB i (BLog n)] t k k0 HWL);
+          [exact HJ0 | exact Hq | exact HG0 | | exact Ecc0 | exact Hncc | exact Hts0 | exact Etb0 | apply Z.le_refl | lia | exact Hk | exact Hk0 | reflexivity | exact Hmu0].
         -- apply (Hh0 m); [exact Him | exact Hbody].
-        -- intros kk Hkk Hm. exists k0. split; [exact Hk0 | eapply Hmu0; eassumption].
       * (* IReturn *)
         destruct m; try discriminate.
         eapply (wl_finish f tnt x d w acc t k i (IReturn v :: rest) (TOk v) _ HWL HJ Hq Hk Hl Hdead Htp Him Htask Hncc Hts); reflexivity.
@@ -307,41 +322,98 @@ Proof.
       * discriminate.
   - (* no task: pop one *)
     subst m. pose proof (imode_MRun _ Him) as Est.
-    pose proof (jq_t _ _ (j_q _ _ _ _ _ _ _ HJ)) as HQt.
+    pose proof (jq_t _ _ (j_q _ _ _ _ _ _ _ _ HJ)) as HQt.
     destruct (lpop (pw_tq x) 0 0) as [q' r] eqn:Epop.
     destruct (Q1_lpop_cases _ _ _ _ HQt Epop) as [HQ' [(tz & -> & Hcnt)|(-> & Hnil & Hnil')]].
     + destruct (mem_nat (Z.to_nat tz) (pw_cancel_tasks x)) eqn:Em.
-      * destruct (J_pop_cancel mx tnt x d w t k q' tz HJ Hq Hk Hl HQ' Hcnt Em) as (HJ1 & Ecc1 & Ets1 & Hk1 & Etb1).
+      * destruct (J_pop_cancel mx kp tnt x d w t k q' tz HJ Hq Hk Hl HQ' Hcnt Em) as (HJ1 & Ecc1 & Ets1 & Hk1 & Etb1).
         pose proof (pop_cancel_rho x q' tz Hpools Hcnt) as Hr1.
         cbv zeta in *. set (xg := pop_cancel x 0 q' (Z.to_nat tz)) in *.
         destruct (pop_cancel_post x q' (Z.to_nat tz) Hpools) as (W0 & R0 & N0 & Hu0 & _). fold xg in Hu0.
-        eapply (wl_chain0 f tnt x xg d w acc t HWL); [exact HJ1 | exact Hq | | | exact Ecc1 | exact Hncc | congruence | exact Etb1 | rewrite (up_clock _ _ _ _ _ _ _ Hu0); apply Z.le_refl | lia |].
+        eapply (wl_chain0 f tnt x xg d w acc t k k HWL); [exact HJ1 | exact Hq | | | exact Ecc1 | exact Hncc | congruence | exact Etb1 | rewrite (up_clock _ _ _ _ _ _ _ Hu0); apply Z.le_refl | lia | exact Hk | exact Hk1 | reflexivity |].
         -- eapply G_idle; eassumption.
         -- eapply hole_ok_intro; [exact Hk1 | exact Hl | exact Hdead | exact Htp | rewrite Est; reflexivity | rewrite Htask; reflexivity].
-        -- intros kk Hkk Hm. rewrite Hk in Hkk. injection Hkk as <-. exists k. split; [exact Hk1|].
-           unfold mu in *. rewrite Etb1.
-           rewrite (up_tq _ _ _ _ _ _ _ Hu0). rewrite (qsum_pop _ _ _ _ Hcnt) in Hm. lia.
-      * destruct (J_pop_start mx tnt x d w t k q' tz HJ Hq Hk Hl Htask Hncc HQ' Hcnt Em) as (HJ1 & Ecc1 & Ets1 & Etb1 & Hk1 & Hb1).
+        -- unfold mu. rewrite Etb1.
+           rewrite (up_tq _ _ _ _ _ _ _ Hu0). rewrite (qsum_pop _ _ _ _ Hcnt). lia.
+      * destruct (J_pop_start mx kp tnt x d w t k q' tz HJ Hq Hk Hl Htask Hncc HQ' Hcnt Em) as (HJ1 & Ecc1 & Ets1 & Etb1 & Hk1 & Hb1).
         pose proof (pop_start_rho x q' tz w k Hk Hl Htask Hcnt) as Hr1.
         cbv zeta in *. set (xg := pop_start x 0 q' (Z.to_nat tz) w k) in *.
-        eapply (wl_chain f tnt x xg d w acc [EB (Z.to_nat tz) (BStart (Z.of_nat w))] t HWL);
-          [exact HJ1 | exact Hq | | | exact Ecc1 | exact Hncc | congruence | exact Etb1 | apply Z.le_refl | lia |].
+        eapply (wl_chain f tnt x xg d w acc [EB (Z.to_nat tz) (BStart (Z.of_nat w))] t k _ HWL);
+          [exact HJ1 | exact Hq | | | exact Ecc1 | exact Hncc | congruence | exact Etb1 | apply Z.le_refl | lia | exact Hk | exact Hk1 | reflexivity |].
         -- right. right. eexists w, _. split; [exact Hk1|]. split; [exact Hl|]. right. split; [reflexivity|].
            cbn [k_st]. rewrite Est. reflexivity.
         -- eapply hole_ok_intro; [exact Hk1 | exact Hl | exact Hdead | reflexivity | cbn [k_st]; rewrite Est; reflexivity | exact Hb1].
-        -- intros kk Hkk Hm. rewrite Hk in Hkk. injection Hkk as <-. eexists. split; [exact Hk1|].
-           unfold mu in *. rewrite Etb1. assert (all_items (pw_tq xg) = all_items q') as -> by reflexivity.
-           rewrite (qsum_pop _ _ _ _ Hcnt) in Hm. unfold tasklen in *. rewrite Htask in Hm. cbn [k_task]. unfold blen in Hm. lia.
-    + (* the queue is empty: the worker exits *)
-      pose proof (J_pop_none mx tnt x d (Some w) t q' HJ HQ' Hnil Hnil') as HJ1.
-      pose proof (j_p _ _ _ _ _ _ _ HJ) as [P1 P2 P3 P4 P5 P6 P7 P8 P9 P10 P11 P12].
+        -- unfold mu. rewrite Etb1. assert (all_items (pw_tq xg) = all_items q') as -> by reflexivity.
+           rewrite (qsum_pop _ _ _ _ Hcnt). unfold tasklen. rewrite Htask. cbn [k_task]. unfold blen. lia.
+    + (* the queue is empty *)
+      pose proof (J_pop_none mx kp tnt x d (Some w) t q' HJ HQ' Hnil Hnil') as HJ1.
+      pose proof (j_p _ _ _ _ _ _ _ _ HJ) as [P1 P2 P3 P4 P5 P6 P7 P8 P9 P10 P11 P12].
       pose proof (nlive_pos _ _ _ Hk Hl) as Hpos. autorewrite with pw.
-      assert ((p_keep (get_pool x 0) <=? sat_sub (pw_clock x) (k_create k)) && (p_min (get_pool x 0) <? p_running (get_pool x 0)) = true) as ->.
-      { unfold sat_sub. apply andb_true_iff. split; lia. }
-      cbn [orb]. exists (set_tq x q'), [], WReturn. rewrite app_nil_r. split; [reflexivity|]. cbn [fold_left].
-      split; [exact HJ1|]. split; [left; autorewrite with pw; exact Hnil'|]. split; [reflexivity|]. split; [reflexivity|]. split; [apply Z.le_refl|]. split.
-      { exists k. autorewrite with pw. auto 10. }
-      split; [|discriminate]. cbn [wl_cost]. unfold rho. autorewrite with pw. rewrite Hnil, Hnil'. lia.
+      set (x1 := set_tq x q') in *.
+      assert (rho x1 = rho x) as Er1 by (unfold rho, x1; autorewrite with pw; rewrite Hnil, Hnil'; reflexivity).
+      assert (get_worker x1 w = Some k) as Hk1 by exact Hk.
+      destruct (((p_keep (get_pool x 0) <=? sat_sub (pw_clock x) (k_create k)) && (p_min (get_pool x 0) <? p_running (get_pool x 0)))
+                || negb (match p_state (get_pool x 0) with PRunning => true | _ => false end)) eqn:Econd.
+      * (* the worker exits *)
+        exists x1, [], WReturn. rewrite app_nil_r. split; [reflexivity|]. cbn [fold_left].
+        split; [exact HJ1|]. split; [left; exact Hnil'|]. split; [reflexivity|]. split; [reflexivity|]. split; [apply Z.le_refl|]. split.
+        { exists k. unfold x1. autorewrite with pw. auto 10. }
+        intros _. split; [left; cbn [wl_cost]; lia | discriminate].
+      * apply orb_false_iff in Econd as [Ekeep Est0].
+        assert (p_keep (get_pool x 0) <=? sat_sub (pw_clock x) (k_create k) = false) as Ekeep'.
+        { destruct (p_keep (get_pool x 0) <=? sat_sub (pw_clock x) (k_create k)); [|reflexivity]. cbn [andb] in Ekeep. lia. }
+        destruct P3 as (Ekp & Hc0 & Hcr & Hpf0).
+        assert (0 < k_create k + kp - pw_clock x) as Hrem by (unfold sat_sub in Ekeep'; lia).
+        assert (0 < kp) as Hkpos by (pose proof (Hcr w k Hk); lia).
+        assert (length (pw_pools x1) = 1%nat) as Hp1 by exact P1.
+        destruct (p_popfail (get_pool x 0) + 1 <? p_running (get_pool x 0)) eqn:Epf.
+        -- (* a plain yield *)
+           set (x2 := upd_pool x1 0 (p_with_popfail (p_popfail (get_pool x 0) + 1))).
+           assert (get_pool x2 0 = p_with_popfail (p_popfail (get_pool x 0) + 1) (get_pool x 0)) as Eq2.
+           { unfold x2. rewrite get_pool_upd_pool_same by lia. reflexivity. }
+           exists x2, [], WYield. rewrite app_nil_r. split; [reflexivity|]. cbn [fold_left].
+           split; [apply J_popfail; [exact HJ1 | lia]|]. split; [left; exact Hnil'|]. split; [reflexivity|]. split; [reflexivity|]. split; [apply Z.le_refl|].
+           assert (idle_yield x2 w) as Hidle.
+           { exists k. split; [exact Hk|]. split; [exact Hl|]. split; [exact Hdead|]. split; [exact Htp|]. split; [exact Hts|].
+             split; [exact Htask|]. split; [exact Est | exact Hnil']. }
+           split; [right; exact Hidle|].
+           intros _. split; [|discriminate]. right. split; [exact Hidle|]. split; [reflexivity|]. split; [exact Hkpos|].
+           assert (rho x2 = rho x) as Er2 by exact Er1. split; [lia|]. intros _.
+           unfold idle_dec, ipot, pfx, phix. rewrite Eq2. cbn [p_popfail p_with_popfail].
+           change (pw_clock x2) with (pw_clock x). change (pw_workers x2) with (pw_workers x). unfold pfc. lia.
+        -- (* a nap, and round again *)
+           set (c1 := sat_add64 (pw_clock x) 1000000).
+           set (x2 := set_clockp (upd_pool x1 0 (p_with_popfail 0)) c1).
+           destruct (sat_add64_mono (pw_clock x) 1000000 P10 ltac:(lia)) as [Hc1 Hc2]. fold c1 in Hc1, Hc2.
+           assert (J mx kp tnt x2 d (Some w) t) as HJ2 by (apply J_clockp; [apply J_popfail; [exact HJ1 | lia] | exact Hc1 | exact Hc2]).
+           assert (get_worker x2 w = Some k) as Hk2 by exact Hk.
+           destruct (HWL tnt x2 d w acc t HJ2 Hq ltac:(left; exact Hnil')
+                       ltac:(eapply hole_ok_intro; [exact Hk2 | exact Hl | exact Hdead | exact Htp | rewrite Est; reflexivity | rewrite Htask; reflexivity])
+                       Hncc Hts)
+             as (x' & evs & out & Ew & HJ' & HG' & Ecc' & Etb' & Hclk' & Hpost & HM).
+           exists x', evs, out. split; [exact Ew|]. split; [exact HJ'|]. split; [exact HG'|]. split; [exact Ecc'|]. split; [exact Etb'|].
+           assert (pw_clock x2 = c1) as Ec2 by reflexivity.
+           split; [lia|]. split; [exact Hpost|].
+           intro Hlow. destruct (HM Hlow) as [HD Hf'].
+           assert (pw_clock x' < U64MAX) as Hlow' by (destruct Hlow as [?|?]; [lia | assumption]).
+           assert (c1 = pw_clock x + 1000000) as Ec1 by (unfold c1, sat_add64 in *; lia).
+           assert (rho x2 = rho x) as Er2 by exact Er1.
+           assert (get_pool x2 0 = p_with_popfail 0 (get_pool x 0)) as Eq2.
+           { unfold x2. autorewrite with pw. rewrite get_pool_upd_pool_same by lia. reflexivity. }
+           assert (1 <= rem kp (pw_clock x) k) as Hr1 by (apply rem_pos, Hrem).
+           assert (rem kp c1 k + 1 <= rem kp (pw_clock x) k) as Hr2 by (rewrite Ec1; pose proof (rem_nap kp (pw_clock x) k); lia).
+           assert (phix kp x2 + 1 <= phix kp x) as Hphi.
+           { unfold phix. change (pw_workers x2) with (pw_workers x). rewrite Ec2, Ec1.
+             pose proof (phimax_nap kp (pw_clock x) (pw_workers x)) as H1.
+             pose proof (phimax_ge kp (pw_clock x) (pw_workers x) w k Hk) as H2. unfold lrem in H2. rewrite Hl in H2. lia. }
+           assert (ipot x2 + 1 <= ipot x + 1 /\ ipot x2 <= mx * phix kp x) as [_ Hip].
+           { unfold ipot, pfx. rewrite Eq2. cbn [p_popfail p_with_popfail]. unfold pfc. pose proof (pfc_nonneg mx (p_popfail (get_pool x 0))). unfold pfc in *. nia. }
+           split.
+           ++ destruct HD as [HA|(Hi & Ho & _ & Hr & Hdec)]; [left; lia|]. right. split; [exact Hi|]. split; [exact Ho|]. split; [exact Hkpos|]. split; [lia|].
+              intro E. unfold idle_dec in *. specialize (Hdec ltac:(lia)). unfold ipot at 2. pose proof (pfc_nonneg mx (p_popfail (get_pool x 0))). unfold pfx. lia.
+           ++ intros k0 Hk0 Hm. rewrite Hk in Hk0. injection Hk0 as <-. apply (Hf' k Hk2). unfold mu2 in *. rewrite Ec2.
+              assert (mu x2 k = mu x k) as -> by (unfold mu, x2, x1; autorewrite with pw; rewrite Hnil, Hnil'; reflexivity).
+              pose proof (rem_nonneg kp c1 k). lia.
 Qed.
 
 Theorem wloop_J : forall f, WL f.
